@@ -83,9 +83,10 @@ impl Collection<Index> {
     pub fn remove_shift(&mut self, index: usize) {
         let min_length = self.min_length();
         self.known_mut().remove(&index.into());
-        for _ in index..min_length {
-            if let Some(value) = self.known_mut().remove(&(index + 1).into()) {
-                self.known_mut().insert(index.into(), value);
+        // every later known element moves one position to the left
+        for i in index..min_length {
+            if let Some(value) = self.known_mut().remove(&(i + 1).into()) {
+                self.known_mut().insert(i.into(), value);
             }
         }
     }
